@@ -68,7 +68,8 @@ theorem lockset_discipline_violation_witness :
   decide +kernel
 
 /-- Atomicity facts the interleaving models (C01, C02, C06, C09, C10, C11, C12) take as their step
-    granularity: the listed read-modify-write cores run entirely under the named mutex. -/
+    granularity: the listed read-modify-write cores run entirely under the named mutex, and — for
+    the function-scoped entries — inside ONE critical section (no check-then-act split). -/
 theorem atomicity_facts : requiredCoverage.all (covered Generated.facts) = true := by
   decide +kernel
 
@@ -82,7 +83,7 @@ example : fieldOk (Generated.facts.filter (sameField "quotaresource.quota" "allo
   decide +kernel
 
 /-- a two-access race is rejected by the discipline -/
-example : fieldOk [⟨"s", "f", "A", true, [], false, false⟩, ⟨"s", "f", "B", false, [⟨"mu", true⟩], false, false⟩] = false := by
+example : fieldOk [⟨"s", "f", "A", true, [], false, false, 0⟩, ⟨"s", "f", "B", false, [⟨"mu", true⟩], false, false, 1⟩] = false := by
   decide
 
 end LunarVerif.C18
